@@ -199,6 +199,18 @@ def main(argv=None):
     pid = args.pid
     os.environ.setdefault('PYTHONHASHSEED', '0')
     t0 = time.time()
+    # one scratch root per run (outside /repo and /verif); workers create their dirs inside, all removed at the end
+    import atexit
+    import shutil
+    import tempfile
+    run_root = tempfile.mkdtemp(prefix='vfrun-%s-' % pid, dir=os.environ.get('VERIF_TMP_BASE') or tempfile.gettempdir())
+    os.environ['VERIF_TMP'] = run_root
+    main_pid = os.getpid()
+
+    def _cleanup():
+        if os.getpid() == main_pid:
+            shutil.rmtree(run_root, ignore_errors=True)
+    atexit.register(_cleanup)
     ctx = Ctx(pid, args.tier, args.seed)
     evidence_path = os.path.join(os.environ.get('VERIF_EVIDENCE_DIR') or os.path.join(HERE, 'evidence'), pid + '.json')
     os.makedirs(os.path.dirname(evidence_path), exist_ok=True)
